@@ -1,6 +1,7 @@
 /-
 Helper lemmas for C02 (3)-(5): the four-point detector model against `Spec.fourPoint`.
 -/
+import Proofs.Lemmas.Common
 import Model.Rainflow.Spec
 
 namespace PylifeVerif.C02
